@@ -454,4 +454,220 @@ theorem checkXform_zero_scale {α β μ} [DecidableEq α] [DecidableEq β] [Deci
   obtain ⟨⟨⟨⟨_, h8⟩, h9⟩, h10⟩, _⟩ := h
   exact ⟨closeOptCol_zero h8, closeOpt_zero h9, closeOpt_zero h10⟩
 
+/-! ## `xform_brain` and `mirror_brain(via=…)` -/
+
+theorem brainUnitsRev_skip (xs ys : List (Bool × Option Rat)) (h : ∀ e ∈ xs, e.1 = true) :
+    brainUnitsRev (xs ++ ys) = brainUnitsRev ys := by
+  induction xs with
+  | nil => rfl
+  | cons e xs ih =>
+    obtain ⟨a, u⟩ := e
+    have ha : a = true := h (a, u) List.mem_cons_self
+    subst ha
+    simp only [List.cons_append, brainUnitsRev]
+    exact ih fun e he => h e (List.mem_cons_of_mem _ he)
+
+theorem brainUnits_last (es as : List (Bool × Option Rat)) (u : Option Rat) (h : ∀ e ∈ as, e.1 = true) :
+    brainUnits (es ++ (false, u) :: as) = u := by
+  simp only [brainUnits, List.reverse_append, List.reverse_cons, List.append_assoc, List.singleton_append]
+  rw [brainUnitsRev_skip _ _ (fun e he => h e (List.mem_reverse.mp he))]
+  rfl
+
+theorem brainUnits_alias (as : List (Bool × Option Rat)) (h : ∀ e ∈ as, e.1 = true) : brainUnits as = none := by
+  have := brainUnitsRev_skip as.reverse [] (fun e he => h e (List.mem_reverse.mp he))
+  simpa [brainUnits, brainUnitsRev] using this
+
+theorem mapXYZ_comp {α} (f g : RowFn) (t : Table α) : (t.mapXYZ f).mapXYZ g = t.mapXYZ (fun p => g (f p)) := by
+  simp [Table.mapXYZ, List.map_map, Function.comp_def]
+
+theorem conns_mapXYZ_mapXYZ {β} (f g : RowFn) (c : Option (Table β)) :
+    (c.map (Table.mapXYZ f)).map (Table.mapXYZ g) = c.map (Table.mapXYZ fun p => g (f p)) := by
+  cases c <;> simp [mapXYZ_comp]
+
+theorem xformBrainNeuron_eq {α β μ} (f : RowFn) (guess : Int) (o : Option Rat) (n : Neuron α β μ) (h : helpersOK n) :
+    xformBrainNeuron f guess o n = some (match o with
+      | some u => { specXform f guess n with units := some u }
+      | none => specXform f guess n) := by
+  simp only [xformBrainNeuron, xformNeuron_eq_spec f guess n h, Option.map_some]
+  cases o <;> rfl
+
+theorem helpersOK_of_not_dots {α β μ} (n : Neuron α β μ) (h : n.kind ≠ Kind.dots) : helpersOK n :=
+  fun hk => absurd hk h
+
+/-- what `xform_brain` returns, as far as `mirror_brain` / a second `xform_brain` can see, for a skeleton / mesh -/
+theorem xformBrain_fields {α β μ} (f : RowFn) (guess : Int) (o : Option Rat) (n : Neuron α β μ)
+    (hk : n.kind ≠ Kind.dots) :
+    ∃ out, xformBrainNeuron f guess o n = some out ∧ out.kind = n.kind ∧ out.pts = n.pts.mapXYZ f
+      ∧ out.conns = n.conns.map (Table.mapXYZ f) ∧ out.faces = n.faces ∧ out.k = n.k ∧ out.info = n.info := by
+  refine ⟨_, xformBrainNeuron_eq f guess o n (helpersOK_of_not_dots n hk), ?_⟩
+  cases o <;> exact ⟨rfl, rfl, rfl, rfl, rfl, rfl⟩
+
+theorem mirrorNeuron_fields {α β μ} (g : RowFn) (n : Neuron α β μ) (hk : n.kind ≠ Kind.dots) :
+    ∃ out, mirrorNeuron g n = some out ∧ out.kind = n.kind ∧ out.pts = n.pts.mapXYZ g
+      ∧ out.conns = n.conns.map (Table.mapXYZ g)
+      ∧ out.faces = (if n.kind = Kind.mesh then n.faces.map rewind else n.faces) ∧ out.k = n.k ∧ out.info = n.info := by
+  cases hkind : n.kind with
+  | dots => exact absurd hkind hk
+  | tree => exact ⟨_, mirrorNeuron_tree g n hkind, by simp [hkind]⟩
+  | mesh => exact ⟨_, mirrorNeuron_mesh g n hkind, by simp [hkind]⟩
+
+theorem mirrorViaNeuron_fields {α β μ} (f1 : RowFn) (m1 : Int) (o1 : Option Rat) (g : RowFn) (f2 : RowFn) (m2 : Int)
+    (o2 : Option Rat) (n : Neuron α β μ) (hk : n.kind ≠ Kind.dots) :
+    ∃ out, mirrorViaNeuron f1 m1 o1 g f2 m2 o2 n = some out ∧ out.kind = n.kind
+      ∧ out.pts = n.pts.mapXYZ (fun p => f2 (g (f1 p)))
+      ∧ out.conns = n.conns.map (Table.mapXYZ fun p => f2 (g (f1 p)))
+      ∧ out.faces = (if n.kind = Kind.mesh then n.faces.map rewind else n.faces) ∧ out.k = n.k ∧ out.info = n.info := by
+  obtain ⟨a, ha, ak, ap, ac, af, akk, ai⟩ := xformBrain_fields f1 m1 o1 n hk
+  obtain ⟨b, hb, bk, bp, bc, bf, bkk, bi⟩ := mirrorNeuron_fields g a (ak ▸ hk)
+  obtain ⟨c, hc, ck, cp, cc, cf, ckk, ci⟩ := xformBrain_fields f2 m2 o2 b (bk ▸ ak ▸ hk)
+  refine ⟨c, by simp [mirrorViaNeuron, ha, hb, hc], by rw [ck, bk, ak], ?_, ?_, ?_, by rw [ckk, bkk, akk],
+    by rw [ci, bi, ai]⟩
+  · rw [cp, bp, ap, mapXYZ_comp, mapXYZ_comp]
+  · rw [cc, bc, ac, conns_mapXYZ_mapXYZ, conns_mapXYZ_mapXYZ]
+  · rw [cf, bf, af, ak]
+
+theorem checkXformBrain_exact {α β μ} [DecidableEq α] [DecidableEq β] [DecidableEq μ]
+    (eps : Rat) (f : RowFn) (guess : Int) (o : Option Rat) (n out : Neuron α β μ)
+    (h : checkXformBrain eps f guess o n out = true) :
+    out.kind = (specXform f guess n).kind ∧ out.pts = (specXform f guess n).pts ∧
+    out.conns = (specXform f guess n).conns ∧ out.faces = (specXform f guess n).faces ∧
+    out.k = (specXform f guess n).k ∧ out.info = (specXform f guess n).info := by
+  cases o with
+  | none => exact checkXform_exact eps f guess n out h
+  | some u =>
+    simp only [checkXformBrain, Bool.and_eq_true] at h
+    exact checkXform_exact eps f guess n { out with units := (specXform f guess n).units } h.1
+
+theorem checkXformBrain_units {α β μ} [DecidableEq α] [DecidableEq β] [DecidableEq μ]
+    (f : RowFn) (guess : Int) (u : Rat) (n out : Neuron α β μ)
+    (h : checkXformBrain 0 f guess (some u) n out = true) : out.units = some u := by
+  simp only [checkXformBrain, Bool.and_eq_true] at h
+  exact closeOpt_zero h.2
+
+/-! ## soundness of the mirror / symmetrize / table checkers -/
+
+theorem sameNeuron_exact {α β μ} [DecidableEq α] [DecidableEq β] [DecidableEq μ]
+    (eps : Rat) (helper : Bool) (m out : Neuron α β μ) (h : sameNeuron eps helper m out = true) :
+    out.kind = m.kind ∧ out.pts = m.pts ∧ out.conns = m.conns ∧ out.faces = m.faces ∧ out.k = m.k ∧ out.info = m.info := by
+  simp only [sameNeuron, Bool.and_eq_true, decide_eq_true_eq] at h
+  obtain ⟨⟨⟨⟨⟨⟨⟨⟨⟨⟨h1, h2⟩, h3⟩, h4⟩, h5⟩, h6⟩, _⟩, _⟩, _⟩, _⟩, _⟩ := h
+  exact ⟨h1, h2, h3, h4, h5, h6⟩
+
+theorem checkMirror_some {α β μ} [DecidableEq α] [DecidableEq β] [DecidableEq μ]
+    (eps : Rat) (g : RowFn) (n out : Neuron α β μ) (h : checkMirror eps g n out = true) :
+    ∃ m, mirrorNeuron g n = some m ∧ out.kind = m.kind ∧ out.pts = m.pts ∧ out.conns = m.conns ∧
+      out.faces = m.faces ∧ out.k = m.k ∧ out.info = m.info := by
+  unfold checkMirror at h
+  cases hm : mirrorNeuron g n with
+  | none => simp [hm] at h
+  | some m =>
+    rw [hm] at h
+    exact ⟨m, rfl, sameNeuron_exact eps _ m out h⟩
+
+theorem checkSymm_some {α β μ} [DecidableEq α] [DecidableEq β] [DecidableEq μ]
+    (eps : Rat) (S : List V3 → List V3) (n out : Neuron α β μ) (h : checkSymm eps S n out = true) :
+    ∃ m, symmetrizeNeuron S n = some m ∧ out.kind = m.kind ∧ out.pts = m.pts ∧ out.conns = m.conns ∧
+      out.faces = m.faces ∧ out.k = m.k ∧ out.info = m.info := by
+  unfold checkSymm at h
+  cases hm : symmetrizeNeuron S n with
+  | none => simp [hm] at h
+  | some m =>
+    rw [hm] at h
+    exact ⟨m, rfl, sameNeuron_exact eps _ m out h⟩
+
+theorem checkMirror_fields {α β μ} [DecidableEq α] [DecidableEq β] [DecidableEq μ]
+    (eps : Rat) (g : RowFn) (n out : Neuron α β μ) (h : checkMirror eps g n out = true) :
+    out.kind = n.kind ∧ out.pts = n.pts.mapXYZ g ∧ out.conns = n.conns.map (Table.mapXYZ g)
+    ∧ out.faces = (if n.kind = Kind.mesh then n.faces.map rewind else n.faces) ∧ out.k = n.k ∧ out.info = n.info := by
+  obtain ⟨m, hm, h1, h2, h3, h4, h5, h6⟩ := checkMirror_some eps g n out h
+  cases hk : n.kind with
+  | tree =>
+    rw [mirrorNeuron_tree g n hk] at hm
+    cases hm
+    simp_all
+  | mesh =>
+    rw [mirrorNeuron_mesh g n hk] at hm
+    cases hm
+    simp_all
+  | dots =>
+    by_cases hu : usesHelpers n.k = true
+    · unfold mirrorNeuron at hm
+      rw [connsIf_eq] at hm
+      simp only [hk, hu, if_true] at hm
+      cases hh : helperPts (n.res * 2) n.pts.xyz n.vect with
+      | none => simp [hh] at hm
+      | some hp =>
+        simp only [hh] at hm
+        cases hm
+        simp_all
+    · have hu' : usesHelpers n.k = false := by simpa using hu
+      rw [mirrorNeuron_dots_k g n hk hu'] at hm
+      cases hm
+      simp_all
+
+theorem checkTable_iff {α} [DecidableEq α] (f : RowFn) (t out : Table α) :
+    checkTable f t out = true ↔ out = t.mapXYZ f := by
+  cases t; cases out
+  simp [checkTable, Table.mapXYZ]
+
+theorem checkMesh_iff (g : RowFn) (v : List V3) (fs : List Face) (v' : List V3) (fs' : List Face) :
+    checkMesh g v fs v' fs' = true ↔ (v', fs') = mirrorMesh g v fs := by
+  simp [checkMesh, mirrorMesh]
+
+/-! ## `_guess_change`: `round(log10 ·)` without logarithms -/
+
+theorem pow10_eq_zpow (m : Int) : pow10 m = (10 : Rat) ^ m := by
+  unfold pow10
+  split
+  · next h =>
+    conv_rhs => rw [← Int.toNat_of_nonneg h]
+    rw [zpow_natCast]
+  · next h =>
+    have hn : 0 ≤ -m := by omega
+    have e : m = -((-m).toNat : Int) := by rw [Int.toNat_of_nonneg hn]; omega
+    conv_rhs => rw [e]
+    rw [zpow_neg, zpow_natCast, one_div]
+
+theorem pow10_mono {a b : Int} (h : a ≤ b) : pow10 a ≤ pow10 b := by
+  rw [pow10_eq_zpow, pow10_eq_zpow]
+  exact zpow_le_zpow_right₀ (by norm_num) h
+
+theorem roundLog10_sound (c : Rat) (m : Int) (h : roundLog10 c = some m) :
+    0 < c ∧ pow10 (2 * m - 1) ≤ c * c ∧ c * c < pow10 (2 * m + 1) := by
+  unfold roundLog10 at h
+  split at h
+  · exact absurd h (by simp)
+  · next hc =>
+    have := List.find?_some h
+    simp only [Bool.and_eq_true, decide_eq_true_eq] at this
+    exact ⟨lt_of_not_ge hc, this.1, this.2⟩
+
+theorem roundLog10_complete (c : Rat) (m : Int) (hc : 0 < c) (hm : -40 ≤ m ∧ m ≤ 40)
+    (h1 : pow10 (2 * m - 1) ≤ c * c) (h2 : c * c < pow10 (2 * m + 1)) : roundLog10 c = some m := by
+  have hmem : m ∈ (List.range 81).map fun (i : Nat) => (i : Int) - 40 := by
+    simp only [List.mem_map, List.mem_range]
+    exact ⟨(m + 40).toNat, by omega, by omega⟩
+  cases hr : roundLog10 c with
+  | none =>
+    unfold roundLog10 at hr
+    rw [if_neg (not_le.mpr hc)] at hr
+    have := List.find?_eq_none.mp hr m hmem
+    simp [h1, h2] at this
+  | some m' =>
+    obtain ⟨_, g1, g2⟩ := roundLog10_sound c m' hr
+    congr 1
+    by_contra hne
+    rcases lt_or_gt_of_ne hne with hlt | hgt
+    · have : pow10 (2 * m' + 1) ≤ pow10 (2 * m - 1) := pow10_mono (by omega)
+      linarith
+    · have : pow10 (2 * m + 1) ≤ pow10 (2 * m' - 1) := pow10_mono (by omega)
+      linarith
+
+theorem pow10_strict {a b : Int} (h : a < b) : pow10 a < pow10 b := by
+  rw [pow10_eq_zpow, pow10_eq_zpow]
+  exact zpow_lt_zpow_right₀ (by norm_num) h
+theorem pow10_sq (k : Int) : pow10 k * pow10 k = pow10 (2 * k) := by
+  rw [pow10_eq_zpow, pow10_eq_zpow, ← zpow_add₀ (by norm_num : (10 : Rat) ≠ 0)]
+  congr 1; omega
+
 end Navis.Xform
